@@ -71,6 +71,9 @@ type Sim struct {
 	Clock  *clock.TestClock
 	Case   *evid.Case
 	evIdx  int64
+	// creditsAnyway: the delivery in progress adds the credits even when the
+	// store reports the transaction as already recorded
+	creditsAnyway bool
 	// history of insert events for redelivery: (tx, block or nil)
 	hist []histEv
 	// statistics for the non-triviality rules
@@ -194,7 +197,7 @@ func (s *Sim) deliverNS(ns walletdb.ReadWriteBucket, i int, b *Blk) error {
 	if err != nil {
 		return fmt.Errorf("InsertTxCheckIfExists(tx%d): %w", i, err)
 	}
-	if exists {
+	if exists && !s.creditsAnyway {
 		return nil
 	}
 	for o, out := range s.U.Specs[i].Outs {
@@ -501,7 +504,16 @@ func (s *Sim) ActRedeliver(t *rapid.T) bool {
 	} else {
 		s.Case.Logf("redeliver tx%d unconfirmed", e.tx)
 	}
+	// A caller may skip the credits of a transaction the store already has (the
+	// wallet does), or add them again regardless (InsertTx followed by AddCredit,
+	// as the package's own examples do): both are the same event delivered again.
+	s.creditsAnyway = rapid.Bool().Draw(t, "creditsAgain")
+	if s.creditsAnyway {
+		s.Case.Logf("  (credits are added again although the transaction is known)")
+		s.Case.Class("redelivery-adds-credits-again")
+	}
 	s.update("redeliver", func(ns walletdb.ReadWriteBucket) error { return s.deliverNS(ns, e.tx, e.blk) })
+	s.creditsAnyway = false
 	if e.blk != nil {
 		s.L.Confirm(e.tx, e.blk)
 	} else {
